@@ -354,6 +354,14 @@ theorem C26_foreign_keys (d : Dialect) (D : Decls) (st : St d) (_h : generateSt 
     ∀ p ∈ st.linked, HasFk st.schema.1 p.child p.cols p.parent p.parentCols :=
   st.linkedOk
 
+/-- MAPPING, all declaration lists: every index `generate_mapping` registered (logged in `indexed`: the primary key
+    of each entity table and of each link table, every declared unique / composite key, composite index and attribute
+    index) is in the final schema on exactly the logged column list of the logged table, with the logged primary-key
+    kind (`True` / `'auto'`) and, for a non-primary index, the logged uniqueness -/
+theorem C26_indexes (d : Dialect) (D : Decls) (st : St d) (_h : generateSt d D = .ok st) :
+    ∀ p ∈ st.indexed, HasIdx st.schema.1 p.table p.cols p.isPk p.unique :=
+  st.indexedOk
+
 /-- `generate` is the schema component of `generateSt` -/
 theorem C26_generate_state (d : Dialect) (D : Decls) (s : Schema) :
     generate d D = .ok s ↔ ∃ st, generateSt d D = .ok st ∧ st.schema.1 = s := by
@@ -370,13 +378,13 @@ theorem C26_generate_state (d : Dialect) (D : Decls) (s : Schema) :
     · intro h; cases h
     · rintro ⟨st', h1, _⟩; cases h1
 
-def logSizes (d : Dialect) (D : Decls) : Nat × Nat :=
+def logSizes (d : Dialect) (D : Decls) : Nat × Nat × Nat :=
   match generateSt d D with
-  | .ok st => (st.placed.length, st.linked.length)
-  | .error _ => (0, 0)
+  | .ok st => (st.placed.length, st.linked.length, st.indexed.length)
+  | .error _ => (0, 0, 0)
 
 /-- the logs are not empty: three attributes with columns in `caseWitness`; two link-table foreign keys in `lenWitness` -/
-example : logSizes .sqlite caseWitness = (3, 0) ∧ logSizes .oracle lenWitness = (2, 2) := by decide
+example : logSizes .sqlite caseWitness = (3, 0, 1) ∧ logSizes .oracle lenWitness = (2, 2, 2) := by decide
 
 /-! ### creation order -/
 
